@@ -17,10 +17,11 @@ N_QUICK, N_THOROUGH = 3200, 80000
 T_QUICK, T_THOROUGH = 75, 1500
 FLOORS = {"types_compiled": 300, "setter_calls_inproc": 3000, "full_rereads": 3000, "byte_diffs_checked": 3000,
           "standalone_runs": 100, "standalone_setter_diffs": 1000, "standalone_accessor_lines": 5000,
-          "flush_at_image_end": 50, "extreme_values": 500}
+          "flush_at_image_end": 50, "extreme_values": 500, "growths_between_setter_calls": 100}
 RULE = ("random type AST with scalar leaves (depth<=3) x value; (a) in-process: each sampled generated setter is called "
         "through ContextCpu/cffi with type extremes and random values, then the WHOLE object is re-read against the "
-        "model with exactly that leaf replaced and the buffer byte diff must be exactly the leaf's bytes; (b) "
+        "model with exactly that leaf replaced and the buffer byte diff must be exactly the leaf's bytes, with forced "
+        "buffer growth (storage replacement) between calls of the same kernel; (b) "
         "stand-alone: the real buffer image [0, high-water mark) is loaded into an exactly-sized malloc block and "
         "every accessor (get/getp/len/typeid/member/set) is executed under clang ASan+UBSan "
         "(-fno-sanitize-recover=all); zero report blocks, outputs and per-setter byte diffs equal the expectation. "
@@ -97,8 +98,11 @@ def run_case(w, rng):
             w.count("types_compiled")
             rng.shuffle(setters)
             mv = c.mv
-            for cl in setters[:25]:
+            for ci, cl in enumerate(setters[:25]):
                 val = leaf_value(rng, cl.leaf_t["t"], w)
+                if ci > 0 and rng.random() < 0.12:
+                    # the storage is replaced between two calls of the same kernel: offsets stay, addresses do not
+                    w.count("growths_between_setter_calls", env.force_growth())
                 before = bufmon.raw_bytes(env.buf)
                 try:
                     _ip.call(h, cl, val.item())
